@@ -33,7 +33,7 @@ CHECKS = {
    text="Lean model of hard fusion as an index map (effective charges, decomposition layout by offsets, row-major reshape). Theorems for all dimension profiles / sector "
         "contents: reshape and sector layout are bijections (left and right inverses, injectivity, no gaps), the fused keys obey the selection rule for every partition of "
         "the legs (from the C19 grouping law), charge/signature of the fused tensor, and fuse_element_preserved: every element of every stored block is found in the fused tensor at the "
-        "mapped block and position, for every partition of the legs in any order; unfuse_fuse: reading the fused tensor back through the forward map returns every stored element (unfuse o fuse = id). Tie: element-position correspondence (every element a distinct integer) of real "
+        "mapped block and position, for every partition of the legs in any order; unfuse_fuse: reading the fused tensor back through the forward map returns every stored element (unfuse o fuse = id); fused_nonzero_from_block: every non-zero element of the fused tensor is a stored element of the original (missing sectors and padding are zeros). Tie: element-position correspondence (every element a distinct integer) of real "
         "fuse_legs(mode='hard') vs the model + exact oracles on the real code: unfuse(fuse(x)) incl. pending transposes and depth<=3, hard/meta/mixed; elements and norm "
         "preserved; tensordot/add/sub/vdot/trace over fused legs == over original legs for equal/overlapping/disjoint sector content; incompatible fusions rejected with "
         "YastnError (incl. a product leg against a direct-sum leg with identical recorded constituents); block() vs dense block matrix, with all legs blocked or the others declared common_legs.",
